@@ -3,12 +3,13 @@ from harness.props.session import *
 from harness.props import session as _s
 from harness.gen.sessions import gen_case, SidCounter
 
-LEAN_MODULES = ["C20", "C20b", "C20c", "C20d", "C20e"]
+LEAN_MODULES = ["C20", "C20b", "C20c", "C20d", "C20e", "C20f"]
 THEOREM_NOTE = ("Props/C20b.lean (the GLib machine, Model/GMachine.lean = GLibEventLoop over GLib main contexts + the same scheduler / input pipeline): after force_quit no handler is "
                 "called any more, enqueues are dropped, loops give up; every handler call is of a handler registered for the exact class with its data, from the list snapshotted at "
                 "enqueue; a batch is exactly the attach-order sub-sequence of the ready sources of the most urgent priority present. "
                 "Props/C20c.lean: the clauses of C02 / C03 / C09 / C10 on the GLib machine, each proved or refuted by a kernel-checked run replayed on the real code (G2: a failing handler skips the rest of its signal's handlers; G3: the batch continues after an exit request; G4: a waiting call dispatches whole batches, the mark comes after the handlers; close_loop does not drain). "
                 "Props/C20e.lean (C20e_same_scheduler): for every scheduler / screen / input instruction and scheduler action the two machines share - all but waitInput, whose spinning test reads loop state - the two machines make the same step on equal views (same new app state, log, output, registrations, pushed instructions up to the translation), provided a loop is left on the GLib side. "
+                "Props/C20f.lean: on the GLib machine the quit callback is logged at most once, with the registered datum, in every execution. "
                 "Props/C20d.lean: for flat programs both machines refine the abstract runs (the MainLoop machine's macro step is mstep, the GLib machine's dispatch is gstep) and so produce the same handler invocations and the same final log on calm runs. "
                 "Props/C20.lean: on calm runs the two loop disciplines (MainLoop: stable priority queue, one signal at a time; GLib: batches of the most urgent priority in attach "
                 "order) dispatch the same signals in the same order; outside Calm the divergences are concrete, classified known findings G1-G4")
